@@ -7,11 +7,14 @@ cd "$(dirname "$0")/.."; V=$(pwd)
 export GOFLAGS=-mod=mod GOPROXY=off GOSUMDB=off GOTOOLCHAIN=local
 ids=("$@"); [ ${#ids[@]} -eq 0 ] && ids=($(ls seeded))
 rc=0
+# one worktree path for all changes: the Go build cache then only recompiles what a patch touches
+WT=/tmp/reeval-wt
+git -C /repo worktree remove --force $WT 2>/dev/null
+git -C /repo worktree add -q $WT HEAD || { echo "cannot create worktree"; exit 2; }
+trap 'git -C /repo worktree remove --force $WT' EXIT
 for id in "${ids[@]}"; do
-  WT=/tmp/reeval-$$-$id
-  git -C /repo worktree remove --force $WT 2>/dev/null
-  git -C /repo worktree add -q $WT HEAD || { echo "$id: cannot create worktree"; rc=2; continue; }
-  if ! git -C $WT apply $V/seeded/$id/patch.diff; then echo "$id: PATCH-DOES-NOT-APPLY"; rc=2; git -C /repo worktree remove --force $WT; continue; fi
+  git -C $WT checkout -q -- . && git -C $WT clean -qfd
+  if ! git -C $WT apply $V/seeded/$id/patch.diff; then echo "$id: PATCH-DOES-NOT-APPLY"; rc=2; continue; fi
   for c in $(python3 -c "import json;print(' '.join(json.load(open('$V/seeded/$id/meta.json'))['caught_by']))"); do
     out=$(VERIF_REPO=$WT VERIF_EVIDENCE_DIR=/tmp/reeval-evidence ./vcheck $c 2>&1)
     if echo "$out" | grep -q "^VIOLATION property=$c "; then
@@ -20,7 +23,6 @@ for id in "${ids[@]}"; do
       echo "$id $c MISSED $(echo "$out" | grep -m1 'HARNESS-TROUBLE' | cut -c1-160)"; rc=1
     fi
   done
-  git -C /repo worktree remove --force $WT
 done
 rm -rf /tmp/reeval-evidence
 exit $rc
